@@ -24,7 +24,10 @@ func NewTransport(tlscfg *tls.Config) *http.Transport {
 		// a limit an upstream which accepts the TCP connection and then
 		// stays silent holds the client for good
 		TLSHandshakeTimeout: cfg.Proxy.DialTimeout,
-		TLSClientConfig:     tlscfg,
+		// a proxy passes on what the client and the upstream negotiate: do not
+		// ask for gzip on the client's behalf and unpack the answer
+		DisableCompression: true,
+		TLSClientConfig:    tlscfg,
 	}
 }
 
